@@ -522,7 +522,9 @@ class Exec(Interp):
         try:
             return self.as_goal(self.pure_eval(text, fr, extra))
         except Unsupported as ex:
-            if 'may raise' not in str(ex):
+            # a clause whose guard can hold on this path but which names a local (final_<name>) the path never assigned:
+            # the code took a route the contract does not describe -- a failed obligation, like an unevaluable clause
+            if 'may raise' not in str(ex) and 'unknown name final_' not in str(ex):
                 raise
             self.not_evaluable.append(str(ex))
             return z3.BoolVal(False)
